@@ -15,6 +15,7 @@ inductive Err
   | modNoArgs | modPoorArgs | modNoStr | condHlpNotFound | senseless
   | wrongLoopLim | wrongLoopCond | wrongLoopOp | unknownCtl | unknownType
   | writer | unknownInspector | unknownPool | userFail | unsupported | outOfFuel | incDepth
+  | parse            -- strconv error passed on by a code-generated inspector's Compare
   deriving DecidableEq, Repr, Inhabited
 
 /-- One variable slot: exactly one representation is live (after the repair of `Set*`). -/
@@ -158,9 +159,18 @@ def cmpCore (vars : Vars) (path : Bytes) (o : Op) (right : Bytes) : Bool :=
     | some (.bytes b) => if b.isEmpty then false else ((Val.bytes b).cmpLit o right).getD false
     | some (.ins v k) => (insCompare k v sub o right).getD false
 
-/-- `Ctx.cmp`: the error is reset, then the comparison. -/
+/-- The error `Ctx.cmp` leaves in `ctx.Err` (`ctx.Err = v.ins.Compare(...)`): a function of the variables only. -/
+def cmpErrCore (vars : Vars) (path : Bytes) (o : Op) (right : Bytes) : Option Err :=
+  match splitDots path with
+  | [] => none
+  | name :: sub =>
+    match getVar vars name with
+    | some (.ins v k) => if insCompareErr k v sub o right then some .parse else none
+    | _ => none
+
+/-- `Ctx.cmp`: the error is reset (or set by the inspector), then the comparison. -/
 def Ctx.cmp (c : Ctx) (path : Bytes) (o : Op) (right : Bytes) : Bool × Ctx :=
-  (cmpCore c.vars path o right, { c with err := none })
+  (cmpCore c.vars path o right, { c with err := cmpErrCore c.vars path o right })
 
 /-- What `Ctx.cmpLC` computes: `len(x) op n` / `cap(x) op n`. -/
 def cmpLCCore (vars : Vars) (qb : Bool) (path : Bytes) (o : Op) (right : Bytes) : Bool :=
@@ -306,6 +316,17 @@ def applyCondFn (id : Bytes) (args : List Val) : Option Bool :=
   else if id == lit "veq" then some (match args with | a :: b :: _ => a.text == b.text | _ => false)
   else if id == lit "vtrue" then some true
   else if id == lit "vfalse" then some false
+  else none
+
+/-- Condition-OK helpers: the harness-registered `vok(a, …)`: the text of its first argument, if that is
+    non-empty, as a byte string, and whether it was. `none` = no such helper. -/
+def applyCondOKFn (id : Bytes) : Option (List Val → Val × Bool) :=
+  if id == lit "vok" then
+    some (fun args => match args with
+      | a :: _ => (match a.text with
+        | some t => if t.isEmpty then (.nil, false) else (.bytes t, true)
+        | none => (.nil, false))
+      | [] => (.nil, false))
   else none
 
 /-! ### The interpreter -/
@@ -539,6 +560,29 @@ def evalCond (c : Ctx) (cd : CondSpec) : Ctx × CondOut :=
     | some e' => (c1, .stop e')
     | none => (c1, .branch b e)
 
+/-- `ctx.Set(v, raw, ins); ctx.SetStatic(ok, ctx.BufB)` of the if-ok node. -/
+def condOKAssign (c : Ctx) (k : CondOKSpec) (v : Val) (okv : Bool) : Ctx :=
+  let kind : InsKind := if k.ins == lit "static" then .static else if k.ins == lit "strings" then .strings else .obj
+  (c.set k.varV v kind).setStatic k.varOK (.bool okv)
+
+/-- `typeCondOK` up to the choice of the branch: helper lookup (before anything else), arguments, the
+    helper call, inspector lookup, the two assignments, and the optional trailing test (`!ok`). Neither the
+    helper call nor the test looks at `ctx.Err`; an error of `nodeCmp` is pending like in `typeCond`. -/
+def evalCondOK (c : Ctx) (k : CondOKSpec) : Ctx × CondOut :=
+  match applyCondOKFn k.cd.hlp with
+  | none => (c, .stop .condHlpNotFound)
+  | some fn =>
+    let (args, c1) := collectHlpArgs c k.cd.hlpArg
+    let (v, okv) := fn args
+    if !(k.ins == lit "static" || k.ins == lit "TestObject" || k.ins == lit "TestHistory" || k.ins == lit "strings") then
+      (c1, .stop .unknownInspector)
+    else
+    let c2 := condOKAssign c1 k v okv
+    if k.cd.r.isEmpty then (c2, .branch okv none)
+    else
+      let (b, e, c3) := nodeCmp c2 k.cd.l k.cd.r k.cd.staticL k.cd.staticR k.cd.op
+      (c3, .branch b e)
+
 /-- One `case` of a switch: `stop e` or `branch matched none`. -/
 def evalCase (c : Ctx) (arg : Bytes) (k : CaseSpec) : Ctx × CondOut :=
   if !arg.isEmpty then
@@ -616,6 +660,9 @@ def iterAfterBody (rb : Res) : IterOut :=
     if rb.st.c.brkD > 0 then .stop { rb.st with c := { rb.st.c with brkD := rb.st.c.brkD - 1 } }
     else .next rb.st
 
+/-- Clear `ctx.Err` if `b`. -/
+def clrErrIf (b : Bool) (s : St) : St := if b then { s with c := { s.c with err := none } } else s
+
 /-- The separator write before every iteration but the first. -/
 def sepWrite (n : Nat) (sep : Bytes) (s : St) : Res :=
   if n > 0 && !sep.isEmpty then s.write (regionEscape s.c sep) else ok s
@@ -638,9 +685,11 @@ def cloopLoop (run : St → Res) (ls : CLoopSpec) : Nat → Int → Int → Nat 
       match rs.err with
       | some e => ⟨n, { rs.st with c := { rs.st.c with err := some e } }, true⟩
       | none =>
+        -- `ctx.Err = ctx.writeBound(w, sep)`: a separator that was written clears a stale `ctx.Err`
+        let rs1 := clrErrIf (n > 0 && !ls.sep.isEmpty) rs.st
         -- body with the square-bracket check on; the previous mode is restored afterwards (repair)
-        let qb := rs.st.c.chQB
-        let rb0 := run { rs.st with c := { rs.st.c with chQB := true } }
+        let qb := rs1.c.chQB
+        let rb0 := run { rs1 with c := { rs1.c with chQB := true } }
         let rb : Res := { rb0 with st := { rb0.st with c := { rb0.st.c with chQB := qb } } }
         if ls.cntOp == .inc || ls.cntOp == .dec then
           let v' := stepVal ls.cntOp v
@@ -775,7 +824,16 @@ def writeNode (reg : Registry) : Nat → Node → St → Res
     | .counter cs =>
       let (c', e) := counterNode s.c cs
       ⟨{ s with c := c' }, e⟩
-    | .condOK => fail s .unsupported
+    | .condOK k child =>
+      if k.cd.hlp.isEmpty then ok s else
+      let (c1, o) := evalCondOK s.c k
+      let s1 : St := { s with c := c1 }
+      (match o with
+       | .stop e => fail s1 e
+       | .branch r pending =>
+         match (if r then child[0]? else child[1]?) with
+         | some n => writeNode reg f n s1
+         | none => ⟨s1, pending⟩)
     | .cond cd child =>
       let (c1, o) := evalCond s.c cd
       let s1 : St := { s with c := c1 }
